@@ -73,7 +73,7 @@ def run(r: Run):
     model = [next(mout) if regime == "exact" else "-" for regime, *_ in cases]
     # the extended domain against the model WITH the `is_finite` branch (Model/PoissonRange.lean): which terms of a long
     # ladder are pushed as 0.0 because a loop variable has left the range of a double, and what the others normalise to
-    bigidx = [k for k, (regime, m, n, z) in enumerate(cases) if regime == "big" and n >= 1][:: (2 if thorough else 6)]
+    bigidx = [k for k, (regime, m, n, z) in enumerate(cases) if regime == "big" and n >= 1][:: (2 if thorough else 18)]
     rlines = [f"poissonr\t{fr(cases[k][1])}\t{cases[k][2]}\t{cases[k][3]}" for k in bigidx]
     rout = dict(zip(bigidx, r.model("poisson", rlines, stall=600)))
     range_checked = range_skipped = 0
